@@ -3,29 +3,60 @@
 #ifndef TETL_CMATH_ATAN2_HPP
 #define TETL_CMATH_ATAN2_HPP
 
+#include <etl/_config/all.hpp>
+
 #include <etl/_3rd_party/gcem/gcem.hpp>
+#include <etl/_type_traits/is_constant_evaluated.hpp>
+#include <etl/_type_traits/is_same.hpp>
 
 namespace etl {
+
+namespace detail {
+
+template <typename T>
+[[nodiscard]] constexpr auto atan2(T x, T y) noexcept -> T
+{
+    if (not is_constant_evaluated()) {
+        if constexpr (is_same_v<T, float>) {
+#if __has_builtin(__builtin_atan2f)
+            return __builtin_atan2f(x, y);
+#endif
+        }
+        if constexpr (is_same_v<T, double>) {
+#if __has_builtin(__builtin_atan2)
+            return __builtin_atan2(x, y);
+#endif
+        }
+        if constexpr (is_same_v<T, long double>) {
+#if __has_builtin(__builtin_atan2l)
+            return __builtin_atan2l(x, y);
+#endif
+        }
+    }
+    return detail::gcem::atan2(x, y);
+}
+
+} // namespace detail
 
 /// \ingroup cmath
 /// @{
 
 /// Computes the arc tangent of y/x using the signs of arguments to determine the correct quadrant.
 /// \details https://en.cppreference.com/w/cpp/numeric/math/atan2
-[[nodiscard]] constexpr auto atan2(float x, float y) noexcept -> float { return etl::detail::gcem::atan2(x, y); }
+[[nodiscard]] constexpr auto atan2(float x, float y) noexcept -> float { return etl::detail::atan2(x, y); }
 
-[[nodiscard]] constexpr auto atan2f(float x, float y) noexcept -> float { return etl::detail::gcem::atan2(x, y); }
+[[nodiscard]] constexpr auto atan2f(float x, float y) noexcept -> float { return etl::detail::atan2(x, y); }
 
-[[nodiscard]] constexpr auto atan2(double x, double y) noexcept -> double { return etl::detail::gcem::atan2(x, y); }
+[[nodiscard]] constexpr auto atan2(double x, double y) noexcept -> double { return etl::detail::atan2(x, y); }
 
 [[nodiscard]] constexpr auto atan2(long double x, long double y) noexcept -> long double
 {
-    return etl::detail::gcem::atan2(x, y);
+    return etl::detail::atan2(x, y);
 }
 
 [[nodiscard]] constexpr auto atan2l(long double x, long double y) noexcept -> long double
 {
-    return etl::detail::gcem::atan2(x, y);
+    return etl::detail::atan2(x, y);
 }
 
 /// @}
